@@ -43,8 +43,9 @@ def prepare_of(scen):
     return scen["prelude"]
 
 
-def execute(scen, policy="FIFO", schedule=None, expect=None, kill=None, keep_dir=False, on_step_extra=None):
+def execute(scen, policy="FIFO", schedule=None, expect=None, kill=None, keep_dir=False, on_step_extra=None, fault=None):
     from . import vworld as V
+    V.NEXT_FAULT = tuple(fault) if fault else None
     from . import vxpm as X
     from .wscen import make_script
     import copy
@@ -121,7 +122,7 @@ def run_item(item):
     """One execution + oracles.  item: {scen, policy, schedule, expect, kill, props}"""
     from .woracle import analyze, outcome
     scen = item["scen"]
-    r = execute(scen, item.get("policy", "FIFO"), item.get("schedule"), item.get("expect"), item.get("kill"))
+    r = execute(scen, item.get("policy", "FIFO"), item.get("schedule"), item.get("expect"), item.get("kill"), fault=item.get("fault"))
     if r.get("harness_error") and "Nondeterminism" in r["harness_error"]:
         return {"nondeterminism": r["harness_error"], "widths": r["widths"]}
     viol = analyze(scen, r, set(item["props"]))
@@ -130,6 +131,7 @@ def run_item(item):
         viol += analyze_index(scen, r)
     out = {"widths": r["widths"], "violations": viol, "outcome": hashlib.sha256(outcome(scen, r).encode()).hexdigest()[:16],
            "steps": len(r["widths"])}
+    out["token_reads"] = r.get("token_reads", 0)
     if item.get("kill") is not None:
         # a kill point at which the victim is not alive (a job process that has not started yet / is already over) changes nothing
         out["kill_effective"] = any(e[0] in ("KILL", "KILLJOB") for e in r["events"])
@@ -279,6 +281,28 @@ class Search:
                         self.violations.append((prop, key, msg, {"scen": scen, "policy": policy, "schedule": it["schedule"], "kill": it["kill"]}))
             self.completed.setdefault(name, {})[f"{policy}+kill" + ({True: "/demote", "only": "/demote-only"}.get(demote, ""))] = restart_bound
 
+    def explore_faults(self, scens, policies=("FIFO",), kind="token-read", schedules=({},)):
+        """One I/O fault per execution: for every scenario, policy and base schedule, the n-th read of a token file fails (EIO) for every
+        n up to the number of such reads of the fault-free execution."""
+        for scen in scens:
+            name = scen["name"]
+            for pol in policies:
+                for sch in schedules:
+                    base = self.pool.map("engines.explore:run_item", [{"scen": scen, "policy": pol, "schedule": sch, "props": []}])[0]
+                    n = base.get("token_reads", 0)
+                    items = [{"scen": scen, "policy": pol, "schedule": sch, "fault": [kind, k], "props": self.props} for k in range(1, n + 1)]
+                    outs = self.pool.map("engines.explore:run_item", items) if items else []
+                    self.executions += len(items) + 1
+                    for it, o in zip(items, outs):
+                        if "nondeterminism" in o:
+                            raise HarnessError(f"nondeterminism in fault run {it['fault']} of {name}: {o['nondeterminism']}")
+                        self.outcomes.setdefault(name, set()).add(o["outcome"])
+                        for prop, key, msg in o["violations"]:
+                            if key == "HARNESS":
+                                raise HarnessError(f"{name} fault {it['fault']}: {msg}")
+                            self.violations.append((prop, key + ":io-fault", msg, {"scen": scen, "policy": pol, "schedule": it["schedule"], "fault": it["fault"]}))
+                    self.completed.setdefault(name, {})[f"{pol}+{kind}-fault"] = n
+
     def states(self):
         res = self.pool.map_on("engines.explore:collect_states", [None] * self.pool.n, list(range(self.pool.n)))
         st, tr = set(), set()
@@ -311,7 +335,7 @@ def replay_execution(payload):
     """Re-runs one recorded execution twice and prints the observation log (used by --replay)."""
     worker_init()
     item = {"scen": payload["scen"], "policy": payload.get("policy", "FIFO"), "schedule": payload.get("schedule"),
-            "kill": payload.get("kill"), "props": payload.get("props") or ["C04", "C05", "C06", "C07", "C08", "C09", "C11", "C16"], "want_events": True}
+            "kill": payload.get("kill"), "fault": payload.get("fault"), "props": payload.get("props") or ["C04", "C05", "C06", "C07", "C08", "C09", "C11", "C16"], "want_events": True}
     a = run_item(item)
     b = run_item(item)
     same = a.get("events") == b.get("events")
